@@ -164,6 +164,12 @@ SpectrumKnown(s) == Len(s.rrows) = NSp(s.p)
    eigs(A=K, M=B, sigma=-1, which='LM'): the k ids of largest 1/(omega^2+1) = mu/(1+mu), i.e. largest mu; any order;
    eig(a=-B, b=K): all ids, any order.
    Ties / near ties are admitted up to the relative slack 2^-SelBits (exactly, when SelBits = 0). *)
+(* Which pairs ARPACK's Cayley/'SM' run selects is assumed only where it is reliable: in the regime of the
+   ordering clause, or when N <= 20 (then ncv = min(N, max(2k+1, 20)) = N and the Krylov space is the whole
+   space).  Outside (super-critical or purely stabilising reference load, N > 20) the run was observed to end in
+   ArpackNoConvergence most of the time and ConeCyl.lb then silently switches to mode='buckling'; the property
+   demands no particular selection there, so none is assumed. *)
+SelectionAssumed(p) == Regime(p) \/ NSp(p) <= 20
 AscMu(p, ret) == LET eps == RMul(Slack, MuMax(p))
                  IN \A j \in 1..(Len(ret)-1) : RLe(Mu(p, ret[j]), RAdd(Mu(p, ret[j+1]), eps))
 (* linear folds (accumulator is evaluated before the recursive call: no re-evaluation, see harness/README.md) *)
@@ -185,7 +191,7 @@ SolverOK(s, ret) ==
     IN /\ Range(ret) \subseteq 1..m /\ Cardinality(Range(ret)) = Len(ret)
        /\ CASE Solver(s) = "eigsh" ->
                  /\ Len(ret) = kk /\ AscMu(p, ret)
-                 /\ rest = <<>> \/ NuLe(p, WorstNu(p, ret), BestNu(p, rest), OnePlusSlack)
+                 /\ SelectionAssumed(p) => (rest = <<>> \/ NuLe(p, WorstNu(p, ret), BestNu(p, rest), OnePlusSlack))
             [] Solver(s) = "eigh" -> Len(ret) = m /\ AscMu(p, ret)
             [] Solver(s) = "eigs" ->
                  /\ Len(ret) = kk
